@@ -133,6 +133,16 @@ static bool ev_make(Ctx& c, const civil_second& cs, time_zone::civil_lookup* out
   if (out) *out = cl;
   return true;
 }
+// input-building conversion: a trap inside it must not lose the rest of the zone's panel (the instant itself is
+// judged by its own Break event elsewhere); the zone is marked and a harmless stand-in is used
+static bool g_panel_ub = false;
+static civil_second sconv(Ctx& c, int64_t t) {
+  int ub;
+  civil_second r;
+  VT_GUARD(ub, r = convert(tp(t), c.tz));
+  if (ub) { g_panel_ub = true; return civil_second(1970, 1, 1, 0, 0, 0); }
+  return r;
+}
 static void ev_convert(Ctx& c, const civil_second& cs) {
   int ub;
   TP r;
@@ -275,7 +285,7 @@ static void run_zone(Ctx& c, vt::Rng& r, bool thorough, const std::vector<int64_
   for (int64_t t : spec_tr) {
     for (int d = -2; d <= 2; ++d) inst.push_back(sat_add(t, d));
     if (t > kMin + 10 && t < kMax - 1) {
-      Tr x{t, convert(tp(t - 1), c.tz) + 1, convert(tp(t), c.tz)};
+      Tr x{t, sconv(c, t - 1) + 1, sconv(c, t)};
       civil_around(&civ, x);
       if (x.from == x.to) {  // the library sees no change here: probe the day around it as well
         for (int h = -26; h <= 26; h += 2) civ.push_back(x.to + h * 1800);
@@ -300,7 +310,7 @@ static void run_zone(Ctx& c, vt::Rng& r, bool thorough, const std::vector<int64_
   // civil seconds just beyond what max() / min() display: a gap or an overlap may straddle the end of the range
   {
     const int ds[] = {1, 2, 59, 60, 600, 1799, 1800, 1801, 3599, 3600, 3601, 5400, 7199, 7200, 7201, 14400, 86399, 86400, 90000};
-    civil_second cmax = convert(tp(kMax), c.tz), cmin = convert(tp(kMin), c.tz);
+    civil_second cmax = sconv(c, kMax), cmin = sconv(c, kMin);
     for (int d : ds) { climit.push_back(cmax + d); climit.push_back(cmin - d); climit.push_back(cmax - d); climit.push_back(cmin + d); }
   }
   for (int i = 0; i < 12; ++i) {
@@ -318,15 +328,15 @@ static void run_zone(Ctx& c, vt::Rng& r, bool thorough, const std::vector<int64_
     for (const civil_second& cs : climit) { ev_make(c, cs); ev_convert(c, cs); }
     // the civil seconds shown at the limits convert back exactly
     for (int d = 0; d <= 2; ++d) {
-      ev_rt2(c, convert(tp(kMax - d), c.tz));
-      ev_rt2(c, convert(tp(kMin + d), c.tz));
-      ev_make(c, convert(tp(kMax - d), c.tz) + 1 + d);
-      ev_make(c, convert(tp(kMin + d), c.tz) - 1 - d);
+      ev_rt2(c, sconv(c, kMax - d));
+      ev_rt2(c, sconv(c, kMin + d));
+      ev_make(c, sconv(c, kMax - d) + 1 + d);
+      ev_make(c, sconv(c, kMin + d) - 1 - d);
     }
   }
   if (fam_make) {
     for (const civil_second& cs : civ) ev_make(c, cs);
-    for (size_t i = 0; i < inst.size(); i += 3) ev_make(c, convert(tp(inst[i]), c.tz));
+    for (size_t i = 0; i < inst.size(); i += 3) ev_make(c, sconv(c, inst[i]));
     for (const civil_second& cs : climit) ev_make(c, cs);
   }
   if (fam_rt) {
@@ -336,9 +346,9 @@ static void run_zone(Ctx& c, vt::Rng& r, bool thorough, const std::vector<int64_
   }
   if (fam_convert) {
     std::vector<civil_second> all = civ;
-    for (int64_t t : inst) all.push_back(convert(tp(t), c.tz));
+    for (int64_t t : inst) all.push_back(sconv(c, t));
     for (const civil_second& cs : climit) all.push_back(cs);
-    for (int64_t t : lim) all.push_back(convert(tp(t), c.tz));
+    for (int64_t t : lim) all.push_back(sconv(c, t));
     std::sort(all.begin(), all.end());
     all.erase(std::unique(all.begin(), all.end()), all.end());
     for (const civil_second& cs : all) ev_convert(c, cs);
@@ -396,12 +406,12 @@ static void run_zone(Ctx& c, vt::Rng& r, bool thorough, const std::vector<int64_
       ev_break(c, inside);
       for (int64_t t : p) ev_break(c, t);
       // civil direction
-      ev_make(c, convert(tp(inside), c.tz));
-      for (int64_t t : p) ev_make(c, convert(tp(t), c.tz));
+      ev_make(c, sconv(c, inside));
+      for (int64_t t : p) ev_make(c, sconv(c, t));
       std::vector<civil_second> around;
       civil_around(&around, ch[i]);
       if (i + 1 < ch.size()) civil_around(&around, ch[i + 1]);
-      ev_make(c, convert(tp(inside), c.tz));
+      ev_make(c, sconv(c, inside));
       for (const civil_second& cs : around) ev_make(c, cs);
     }
     // long random call sequences
@@ -411,7 +421,7 @@ static void run_zone(Ctx& c, vt::Rng& r, bool thorough, const std::vector<int64_
       int64_t x = sat_add(t.at, r.range(-3, 3) * (r.below(3) ? 1 : 86400));
       switch (r.below(4)) {
         case 0: ev_break(c, x); break;
-        case 1: ev_make(c, convert(tp(x), c.tz)); break;
+        case 1: ev_make(c, sconv(c, x)); break;
         case 2: ev_make(c, (r.below(2) ? t.from : t.to) + r.range(-2, 2)); break;
         default: ev_trans(c, r.below(2) != 0, x); break;
       }
@@ -532,6 +542,36 @@ int main(int argc, char** argv) {
         });
         if (ub2) same = false;
       }
+      if (same && ok && !ub) {
+        // ... and of the bytes alone means: not of the calls made before.  The civil seconds around the zone's own
+        // transitions are looked up in order, then again in reverse order with unrelated lookups in between
+        // (also on zones whose data the specification does not classify, where no oracle applies).
+        VT_GUARD(ub2, {
+          std::vector<Tr> ch = chain(c, 48);
+          std::vector<civil_second> qs;
+          std::vector<int64_t> qt;
+          for (const Tr& x : ch) {
+            for (int d : {-1, 0, 1}) { qs.push_back(x.from + d); qs.push_back(x.to + d); qt.push_back(sat_add(x.at, d)); }
+            qs.push_back(x.from + (x.to - x.from) / 2);
+            qs.push_back(x.to + 3600); qs.push_back(x.from - 3600); qs.push_back(x.to + 86400 * 20);
+          }
+          std::vector<time_zone::civil_lookup> a1;
+          std::vector<civil_second> b1;
+          for (const civil_second& q : qs) a1.push_back(c.tz.lookup(q));
+          for (int64_t t : qt) b1.push_back(c.tz.lookup(tp(t)).cs);
+          for (size_t i = qs.size(); i-- > 0 && same;) {
+            (void)c.tz.lookup(civil_second(1950 + (int)(i % 90), 1 + (int)(i % 12), 1, 0, 0, 0));
+            (void)c.tz.lookup(tp((int64_t)(i % 97) * 40000000LL - 1500000000LL));
+            auto m = c.tz.lookup(qs[i]);
+            if (m.kind != a1[i].kind || m.pre != a1[i].pre || m.trans != a1[i].trans || m.post != a1[i].post) same = false;
+          }
+          for (size_t i = qt.size(); i-- > 0 && same;) {
+            (void)c.tz.lookup(tp((int64_t)(i % 89) * 50000000LL - 2000000000LL));
+            if (c.tz.lookup(tp(qt[i])).cs != b1[i]) same = false;
+          }
+        });
+        if (ub2) same = false;
+      }
       emit(c, "{\"e\":\"Twin\",\"z\":" + std::to_string(c.z) + ",\"same\":" + (same ? "1" : "0") + "}");
       { std::lock_guard<std::mutex> l(g_mu); g_files.erase(key2); }
     }
@@ -542,7 +582,8 @@ int main(int argc, char** argv) {
       // there is reported for this zone (and the rest of its panel is skipped)
       int pub = 0;
       VT_GUARD(pub, run_zone(c, r, thorough, panel[name], thorough || ch_small(c) || (uint64_t)idx % 4 == seed % 4));
-      if (pub) emit(c, "{\"e\":\"PanelUB\",\"z\":" + std::to_string(c.z) + ",\"ub\":1}");
+      if (pub || g_panel_ub) emit(c, "{\"e\":\"PanelUB\",\"z\":" + std::to_string(c.z) + ",\"ub\":1}");
+      g_panel_ub = false;
     }
     alarm(0);
     total += c.events;
@@ -560,7 +601,8 @@ int main(int argc, char** argv) {
       vt::Rng r(seed * 1000003 + (uint64_t)idx);
       int pub = 0;
       VT_GUARD(pub, run_zone(c, r, thorough, std::vector<int64_t>(), true));
-      if (pub) emit(c, "{\"e\":\"PanelUB\",\"z\":" + std::to_string(c.z) + ",\"ub\":1}");
+      if (pub || g_panel_ub) emit(c, "{\"e\":\"PanelUB\",\"z\":" + std::to_string(c.z) + ",\"ub\":1}");
+      g_panel_ub = false;
       total += c.events;
       shard_events[sh] += c.events + 50;
     }
